@@ -214,6 +214,9 @@ func popWaitShape(fd *ast.FuncDecl) []string {
 					switch {
 					case id.Name == recv && sel.Sel.Name == "Pop":
 						ops = append(ops, ".callPop")
+					case id.Name == recv && recv != "":
+						// any other method of the list called from PopWait (the model has none)
+						ops = append(ops, fmt.Sprintf(".other %q", "call "+sel.Sel.Name))
 					case id.Name == "runtime" && sel.Sel.Name == "Gosched":
 						ops = append(ops, ".gosched")
 					case id.Name == "time" && sel.Sel.Name == "NewTicker":
